@@ -17,6 +17,11 @@ R01d validate-before-commit: in merge_method every write of _interpreter/_method
      by the call that must-reach _validate_liveedit_method, which raises MethodEditError for a
      started/executed line whose content differs; Engine.set_method merges exactly under
      `_runstate_started and program_is_started`.
+R01e coverage: the started/executed line ids that _validate_liveedit_method locks come from a loop over a *complete*
+     traversal of the program (opstatic/traversal.py: the called helper, with the call's constant arguments bound, never
+     lets the class of a node decide whether it is part of the result - e.g. get_instructions() without include_blanks
+     drops blank lines, so an edit that turns a passed blank line into an instruction would be merged); ProgramNode.
+     extract_tree_state / apply_tree_state visit every node likewise.
 Decides these shapes; equality of the edited run with a fresh run is out of static reach.
 """
 from __future__ import annotations
@@ -245,6 +250,42 @@ def run(ctx) -> None:
     else:
         ctx.fail("R01d", es, mnodes[0].ast, "Engine.set_method merges exactly under _runstate_started and program_is_started",
                  "the merge/replace decision changed")
+
+    # ---- R01e
+    ctx.rule("R01e", "the lock set of the validation and the carried state cover every line of the method")
+    from .. import traversal
+    gms = mm.methods.get("_get_method_state")
+    if gms is None:
+        raise AnchorError("MethodManager._get_method_state missing")
+    ctx.analysed(gms)
+    lds = local_single_defs(gms)
+    loops = [n for n in walk_no_nested(gms.node) if isinstance(n, ast.For) and any(
+        isinstance(c, ast.Call) and call_attr(c) == "append" and isinstance(c.func.value, ast.Attribute)
+        and c.func.value.attr in ("executed_line_ids", "started_line_ids") for c in ast.walk(n))]
+    if len(loops) != 1:
+        raise AnchorError("_get_method_state: the loop that collects started/executed line ids was not recognised")
+    it = loops[0].iter
+    if isinstance(it, ast.Name):
+        it = lds.get(it.id, it)
+    inst = "_get_method_state: started/executed ids are collected over every node of the program"
+    probs = traversal.problems(ctx, it, gms) if isinstance(it, ast.Call) else [f"iterates `{norm(it)}`"]
+    if not probs:
+        ctx.ok("R01e", inst)
+    else:
+        ctx.fail("R01e", gms, loops[0].iter, inst, "; ".join(probs[:3]) + ": lines of that kind that have already been passed are missing from "
+                 "the lock set, so an edit of such a line is merged instead of being rejected")
+    pn = prog.cls("openpectus.lang.model.ast:ProgramNode")
+    for mname in ("extract_tree_state", "apply_tree_state"):
+        fn = pn.methods.get(mname)
+        if fn is None:
+            raise AnchorError(f"ProgramNode.{mname} missing")
+        ctx.analysed(fn)
+        probs = traversal.func_problems(ctx, fn, {})
+        inst = f"ProgramNode.{mname} visits every node"
+        if not probs:
+            ctx.ok("R01e", inst)
+        else:
+            ctx.fail("R01e", fn, fn.node, inst, "; ".join(probs[:3]) + ": progress of those nodes is not carried over a live edit")
 
 
 def _final_tokens(ctx, mm, f):
